@@ -637,10 +637,27 @@ mod detail {
         ops: &[FlatOp<T>],
         nodes: &[FlatNode<T>],
     ) -> ExprIdxVec {
+        // A commutative operator between two literals may be applied before operators of equal
+        // priority on its left. This regrouping is only valid if the closest operator on the left
+        // with a priority not higher than the own is the same operator or has a lower priority,
+        // and if no unary operator is waiting to be applied to the result of the parenthesized
+        // group after this operator.
+        let regrouping_valid = |bin_op_idx: usize| {
+            let op = &ops[bin_op_idx];
+            op.unary_op.len() == 0
+                && ops[..bin_op_idx]
+                    .iter()
+                    .rev()
+                    .find(|left| left.bin_op.op.prio <= op.bin_op.op.prio)
+                    .map(|left| {
+                        left.bin_op.op.prio < op.bin_op.op.prio || left.bin_op.idx == op.bin_op.idx
+                    })
+                    .unwrap_or(true)
+        };
         let prio_increase =
             |bin_op_idx: usize| match (&nodes[bin_op_idx].kind, &nodes[bin_op_idx + 1].kind) {
                 (FlatNodeKind::Num(_), FlatNodeKind::Num(_))
-                    if ops[bin_op_idx].bin_op.op.is_commutative =>
+                    if ops[bin_op_idx].bin_op.op.is_commutative && regrouping_valid(bin_op_idx) =>
                 {
                     let prio_inc = 5;
                     &ops[bin_op_idx].bin_op.op.prio * 10 + prio_inc
